@@ -532,7 +532,7 @@ func (e *Engine) checkValidationLedger(r *Report) {
 					r.Fail("R2", ck, e.InstrPos(i), "panicking parser "+nm+" called on unvalidated input inside stateless validation")
 				}
 				// methods on math.Int struct fields need a dominating IsNil
-				if strings.HasSuffix(recvTypeName(x), "math.Int") && fn.Name() == "ValidateBasic" || strings.HasSuffix(recvTypeName(x), "math.Int") && fn.Name() == "validateBasic" {
+				if isBigNumType(recvTypeName(x)) && (fn.Name() == "ValidateBasic" || fn.Name() == "validateBasic" || fn.Name() == "Validate") {
 					args := callArgs(x)
 					if len(args) == 0 {
 						return
@@ -970,4 +970,9 @@ func allExemptAccumulated(f *ssa.Function) (every, nonEmpty bool) {
 		}
 	}
 	return
+}
+
+// isBigNumType: sdk math types whose zero value (an unset proto field) holds a nil *big.Int.
+func isBigNumType(t string) bool {
+	return strings.HasSuffix(t, "math.Int") || strings.HasSuffix(t, "math.LegacyDec") || strings.HasSuffix(t, "math.Uint")
 }
